@@ -282,6 +282,18 @@ func H_C08_objects() {
 			}
 			err = c.Unpack(&t, opts...)
 			ok = t.O.K == "v" && t.X.K == "v" && t.Y["k"] == "v"
+			if err == nil && ok {
+				// the same with the second field inside an inline struct
+				var t2 struct {
+					X  c08Obj `config:"x"`
+					In struct {
+						Y c08Obj `config:"y"`
+						O c08Obj `config:"o"`
+					} `config:",inline"`
+				}
+				err = c.Unpack(&t2, opts...)
+				ok = t2.X.K == "v" && t2.In.Y.K == "v" && t2.In.O.K == "v"
+			}
 		case 2:
 			var t struct {
 				A struct {
@@ -325,8 +337,16 @@ func H_C08_objects() {
 		err := c.Unpack(&m, opts...)
 		verif.Assert((err != nil) == cyclic, "C08/objects: Unpack fails exactly on cyclic graphs")
 	case 1:
-		c.FlattenedKeys(opts...)
+		keys := c.FlattenedKeys(opts...)
 		verif.Reach("flatten returned")
+		// acyclic graphs: every reference to an object / a list is expanded to the leaves of what it refers to
+		// (listed under the referenced object's own path), never left as a bare leaf
+		switch shape {
+		case 1, 7, 8:
+			verif.Assert(eqStrings(keys, []string{"o.k", "o.k", "o.k"}), "C08/objects: FlattenedKeys expands every reference to an object/shape="+itoa(shape))
+		case 6:
+			verif.Assert(eqStrings(keys, []string{"l.0", "l.0", "l.0", "l.1", "l.1", "l.1"}), "C08/objects: FlattenedKeys expands every reference to a list")
+		}
 	case 2:
 		diff.CompareConfigs(c, c, opts...)
 		verif.Reach("diff returned")
